@@ -21,6 +21,27 @@ class Abstract:
     """Marker base class of rule-supplied abstract objects: the folder reads their attributes and calls their methods."""
 
 
+class Raised(Exception, Abstract):
+    """An exception of the evaluated program: thrown by a rule's stub (or made from a `raise` statement); `try` statements of
+    the evaluated code catch it by class name."""
+
+    def __init__(self, name: str, bases: T.Sequence[str] = (), message: str = ""):
+        Exception.__init__(self, message or name)
+        self.name, self.message = name, message
+        import builtins as _b
+        cls_ = getattr(_b, name, None)
+        mro_ = [c_.__name__ for c_ in cls_.__mro__] if isinstance(cls_, type) and issubclass(cls_, BaseException) else [name, "Exception", "BaseException"]
+        self.kinds = set(mro_) | set(bases) | {name}
+        if "OSError" in self.kinds:
+            self.kinds |= {"IOError", "EnvironmentError"}
+
+    def is_a(self, type_name: str) -> bool:
+        return type_name in self.kinds
+
+    def __str__(self) -> str:
+        return self.message or self.name
+
+
 class _FuncReturn(Exception):
     def __init__(self, value: T.Any):
         self.value = value
@@ -751,8 +772,42 @@ class Program:
                 raise _LoopBreak()
             elif isinstance(st, ast.Continue):
                 raise _LoopContinue()
+            elif isinstance(st, ast.Try) and env.get("__strict__") is not None:
+                # evaluation mode: an exception is either a rule-supplied `Raised` (thrown by a stub) or an EvalError that names
+                # what the evaluated code raises; anything else (CannotFold, an unnamed EvalError) is not a decided outcome
+                try:
+                    try:
+                        self._propagate(mod, st.body, env, who, depth + 1)
+                    except Raised as ex_:
+                        self._handle(mod, st, ex_, ex_, env, who, depth)
+                    except EvalError as ex_:
+                        nm_ = getattr(ex_, "raised", None)
+                        if nm_ is None:
+                            raise
+                        self._handle(mod, st, Raised(nm_.split(".")[-1]), ex_, env, who, depth)
+                    else:
+                        self._propagate(mod, st.orelse, env, who, depth + 1)
+                finally:
+                    if st.finalbody:
+                        self._propagate(mod, st.finalbody, env, who, depth + 1)
             else:
                 raise CannotFold(f"helper not foldable: {who} (statement `{unparse(st)[:50]}`)")
+
+    def _handle(self, mod: Module, st: ast.Try, exc: "Raised", original: Exception, env: T.Dict[str, T.Any], who: str, depth: int) -> None:
+        """Run the first handler of `st` that catches `exc` (by class name, through the builtin hierarchy and the bases the rule gave)."""
+        for h in st.handlers:
+            types_ = [] if h.type is None else ([unparse(e_) for e_ in h.type.elts] if isinstance(h.type, ast.Tuple) else [unparse(h.type)])
+            if h.type is None or any(exc.is_a(t_.split(".")[-1]) for t_ in types_):
+                if h.name:
+                    env[h.name] = exc
+                try:
+                    self._propagate(mod, h.body, env, who, depth + 1)
+                except EvalError as ex2_:
+                    if getattr(ex2_, "raised", "x") is None:          # a bare `raise`: the active exception goes on
+                        raise original
+                    raise
+                return
+        raise original
 
     # ------------------------------------------------------------ type resolution
     def annotation_class(self, mod: Module, ann: T.Optional[ast.AST]) -> T.Optional[ClassInfo]:
